@@ -285,7 +285,7 @@ class Statement(object):
         :param statements: the full set of statements that make up the program
         :param this_index: the index that this instruction occurs at
         """
-        if self.instruction.is_pseudo_define:
+        if self.instruction.is_pseudo_define or self.instruction.mnemonic == "END":
             return
 
         if self.operand.is_relative():
